@@ -1,5 +1,6 @@
 import NeumannModel.Locks.CoordLemmas
 import NeumannModel.Locks.GraphLemmas
+import NeumannModel.Locks.ReachLemmas
 /-
   C12 — property theorems about the coordinator model (`CoordModel.lean`): which locks are left
   when a transaction ends at ANY of the end-of-transaction sites, the orphan sweep, and the
@@ -90,6 +91,24 @@ theorem timed_out_tx_keeps_only_unrecorded_locks (T mc : Nat) (ops : List CoOp) 
   · exact Or.inr ha
   · rw [hown, hgone] at hq; cases hq
 
+/-- **…and a timed-out transaction is absent from the wait-for graph**: every transaction that was
+    pending before `cleanup_timeouts` and is not afterwards has no entry in either index, is in
+    nobody's holder or waiter set and has no wait-start / priority (every operation sequence). -/
+theorem timed_out_tx_absent_from_graph (T mc : Nat) (ops : List CoOp) (tx : Nat) (p : PTx)
+    (hbefore : aGet (corun ops (Coord.init T mc)).pending tx = some p)
+    (hgone : aGet (costep (corun ops (Coord.init T mc)) .cleanupTimeouts).1.pending tx = none) :
+    Absent (costep (corun ops (Coord.init T mc)) .cleanupTimeouts).1.g tx := by
+  have hi := coInv_run ops _ (coInv_init T mc)
+  generalize corun ops (Coord.init T mc) = c at hi hbefore hgone ⊢
+  simp only [costep] at hgone ⊢
+  have hloop := timeoutLoop_absent ((c.pending.filter (fun e => e.2.doomed)).map (·.1)) c tx hi
+    (fun h => by rw [hbefore] at h; cases h)
+  have hi1 := coInv_timeoutLoop ((c.pending.filter (fun e => e.2.doomed)).map (·.1)) c hi
+  simp only [timeoutLoop] at hloop hi1
+  generalize (List.foldl _ c _) = c1 at hloop hi1 hgone ⊢
+  simp only [cleanupExpiredWait]
+  exact absent_foldl_removeTransaction _ _ _ hi1.tr (Or.inr (hloop hgone))
+
 /-- **Nothing left behind at quiescence**: when no transaction is pending, no vote is in flight
     and no vote was ever refused, the lock table is empty (every operation sequence). -/
 theorem quiescent_lock_table_is_empty (T mc : Nat) (ops : List CoOp)
@@ -167,6 +186,24 @@ theorem sweep_removes_old_locks_of_ended_tx (T mc : Nat) (ops : List CoOp) (ps k
     obtain ⟨v, hv⟩ := aGet_some_of_mem_keys _ _ hm
     rw [hp] at hv; cases hv
   simp [this, hold]
+
+/-- **A swept transaction leaves the wait-for graph**: the owner of any lock the sweep removes is
+    absent from the graph afterwards (every operation sequence, every partition start). -/
+theorem swept_tx_absent_from_graph (T mc : Nat) (ops : List CoOp) (ps k : Nat) (l : KeyLock)
+    (hl : aGet (corun ops (Coord.init T mc)).t.locks k = some l)
+    (hp : aGet (corun ops (Coord.init T mc)).pending l.tx = none) (hold : l.acquiredAt < ps) :
+    Absent (costep (corun ops (Coord.init T mc)) (.sweep ps)).1.g l.tx := by
+  have hi := coInv_run ops _ (coInv_init T mc)
+  generalize corun ops (Coord.init T mc) = c at hi hl hp ⊢
+  simp only [costep, orphanSweep]
+  apply absent_foldl_removeTransaction _ _ _ hi.tr
+  left
+  rw [mem_foldl_setInsert_snd]
+  right
+  refine ⟨k, (mem_orphanKeys c.t _ ps k l.tx hi.nd).mpr ⟨l, hl, rfl, ?_, hold⟩⟩
+  intro hm
+  obtain ⟨v, hv⟩ := aGet_some_of_mem_keys _ _ hm
+  rw [hp] at hv; cases hv
 
 /-! ### coordinator runs are lock-table runs -/
 
@@ -248,6 +285,81 @@ theorem prepare_granted_iff_no_live_foreign_holder (t : LockTable) (g : WaitGrap
       obtain ⟨h, hh⟩ := (tryLockWait_granted_iff t g now wnow tx keys prio).mpr hc
       exact hno h hh
 
+/-! ### the remaining wait-for-graph operations -/
+
+/-- **`would_create_cycle(waiter, holder)` is exact**: it answers `true` precisely when the waiter
+    is the holder or the holder already reaches the waiter along recorded wait-for edges (every
+    adjacency of any size, in any iteration order; the fuel of the model's loop always suffices). -/
+theorem would_create_cycle_exact (g : Adj) (waiter holder : Nat) :
+    wouldCreateCycle g waiter holder = true ↔ waiter = holder ∨ Reach g holder waiter :=
+  wouldCreateCycle_iff g waiter holder
+
+/-- **Deadlock prevention is sound**: recording an edge for which `would_create_cycle` answered
+    `false` in an acyclic wait-for relation leaves it acyclic, and one for which it answered `true`
+    (other than a self-wait, which `add_wait` ignores) creates a cycle. -/
+theorem would_create_cycle_prevention_sound (g : Adj) (waiter holder : Nat) (hac : ¬ HasCycle g) :
+    (wouldCreateCycle g waiter holder = false → ¬ HasCycle (addToSet g waiter holder)) ∧
+    (wouldCreateCycle g waiter holder = true → waiter ≠ holder → HasCycle (addToSet g waiter holder)) := by
+  constructor
+  · intro hf
+    apply acyclic_addToSet g waiter holder hac
+    rw [← wouldCreateCycle_iff, hf]; simp
+  · intro ht hne
+    rcases (wouldCreateCycle_iff g waiter holder).mp ht with e | r
+    · exact absurd e hne
+    · exact ⟨waiter, holder, (mem_neighbors_addToSet g waiter holder waiter holder).mpr (Or.inr ⟨rfl, rfl⟩),
+        reach_addToSet_mono g waiter holder holder waiter r⟩
+
+/-- **A reported cycle never repeats a transaction** and is therefore no longer than the number of
+    waiting transactions (entries of `edges`) — every adjacency, every iteration order. -/
+theorem reported_cycle_simple_and_bounded (g : Adj) (c : List Nat) (h : c ∈ detectCycles g) :
+    c.Nodup ∧ c.length ≤ g.length ∧ ∀ x ∈ c, x ∈ g.map (·.1) :=
+  ⟨detectCycles_nodup g c h, detectCycles_length_le g c h, isCycle_mem_key g c (detectCycles_sound g c h)⟩
+
+/-- **The detector is exact whenever `max_cycle_length` covers the graph** (upgrade of
+    `Props.detector_reports_when_cycle_fits`: the bound relating cycle length to the number of
+    waiting transactions is now proved): an enabled detector whose `max_cycle_length` is at least
+    the number of waiting transactions reports a deadlock exactly when the recorded wait-for
+    relation contains a cycle. -/
+theorem detector_exact_when_bound_covers_graph (cfg : DetectorCfg) (wg : WaitGraph) (lc : Option (Nat → Nat))
+    (g : Adj) (hen : cfg.enabled = true) (hb : g.length ≤ cfg.maxCycleLength) :
+    detect cfg wg lc g ≠ [] ↔ HasCycle g := by
+  constructor
+  · intro h
+    cases hd : detect cfg wg lc g with
+    | nil => exact absurd hd h
+    | cons e r =>
+      obtain ⟨c, v⟩ := e
+      have hm : (c, v) ∈ detect cfg wg lc g := by rw [hd]; exact List.mem_cons_self
+      exact hasCycle_of_isCycle g c (detectCycles_sound g c (detect_subset cfg wg lc g c v hm).1)
+  · intro h
+    have hne := detectCycles_complete g h
+    cases hc : detectCycles g with
+    | nil => exact absurd hc hne
+    | cons c r =>
+      have hm : c ∈ detectCycles g := by rw [hc]; exact List.mem_cons_self
+      exact detect_nonempty cfg wg lc g hen c hm (Nat.le_trans (detectCycles_length_le g c hm) hb)
+
+/-- **`cleanup_stale_edges(ttl)`** on a graph whose reverse index is the transpose of its edges:
+    every transaction whose recorded wait started more than `ttl` ago is absent from the graph
+    afterwards, the edges between the other transactions are exactly the old ones, the reverse
+    index is still the transpose, and the returned count is the number of stale wait-starts. -/
+theorem cleanup_stale_edges_exact (g : WaitGraph) (now ttl : Nat) (hT : Transpose g) :
+    (∀ tx s, (tx, s) ∈ g.waitStarted → now - s > ttl → Absent (cleanupStaleEdges g now ttl).1 tx) ∧
+    (∀ a b, b ∈ outs (cleanupStaleEdges g now ttl).1 a ↔
+        b ∈ outs g a ∧ a ∉ staleTxs g now ttl ∧ b ∉ staleTxs g now ttl) ∧
+    Transpose (cleanupStaleEdges g now ttl).1 ∧
+    (cleanupStaleEdges g now ttl).2 = (staleTxs g now ttl).length := by
+  refine ⟨?_, ?_, transpose_foldl_removeTransaction _ _ hT, rfl⟩
+  · intro tx s hm hs
+    exact absent_foldl_removeTransaction _ _ _ hT (Or.inl ((mem_staleTxs g now ttl tx).mpr ⟨s, hm, hs⟩))
+  · intro a b
+    exact mem_outs_foldl_removeTransaction _ g hT a b
+
+/-- `WaitForGraph::clear` leaves nothing: every transaction is absent -/
+theorem clear_leaves_nothing (g : WaitGraph) (tx : Nat) : Absent (clearGraph g) tx := by
+  simp [Absent, clearGraph, WaitGraph.empty, aGet, outs, ins]
+
 /-! non-vacuity -/
 
 def demo : List CoOp :=
@@ -269,5 +381,20 @@ example : (corun leak (Coord.init 30 10)).t.locks.map (·.1) = [4] ∧ (corun le
 example : (costep (corun leak (Coord.init 30 10)) (.sweep 1)).1.t.locks = [] ∧
     (costep (corun leak (Coord.init 30 10)) (.sweep 0)).1.t.locks.map (·.1) = [4] := by decide
 example : endOf (.forceResolve 3 true) = some 3 := rfl
+example : detect { enabled := true, policy := .youngest, maxCycleLength := 3, cascadeDepth := 3 } (WaitGraph.empty 0) none
+    [(1, [2]), (2, [3, 1]), (3, [1])] = [([1, 2, 3], 3), ([1, 2], 2)] := by decide
+example : wouldCreateCycle [(2, [3]), (3, [1, 4])] 1 2 = true ∧ wouldCreateCycle [(2, [3]), (3, [4])] 1 2 = false := by decide
+example : ¬ HasCycle [(2, [3]), (3, [4])] := fun hc => detectCycles_complete _ hc (by decide)
+def staleDemo : WaitGraph :=
+  (crun [.advance 5, .gAdd 1 2 none, .advance 4, .gAdd 3 2 none] (CSys.init 3 0)).g
+example : Transpose staleDemo := (pairInv_run _ _ (pairInv_init 3 0)).tr
+example : staleDemo.waitStarted = [(3, 9), (1, 5)] ∧ (cleanupStaleEdges staleDemo 10 3).1.edges = [(3, [2])] ∧
+    (cleanupStaleEdges staleDemo 10 3).2 = 1 := by decide
+-- deadlines: tx 1 holds key 1, tx 2 waits for it; tx 1's deadline passes; cleanup_timeouts ends it
+def late : List CoOp := [.begin [0], .begin [0], .prepare 1 [1], .deliver 0 0, .prepare 2 [1], .doom 1]
+example : ins (corun late (Coord.init 30 10)).g 1 = [2] := by decide
+example : (costep (corun late (Coord.init 30 10)) .cleanupTimeouts).1.pending.map (·.1) = [2] ∧
+    (costep (corun late (Coord.init 30 10)) .cleanupTimeouts).1.g.edges = [(2, [])] ∧
+    (costep (corun late (Coord.init 30 10)) .cleanupTimeouts).1.t.locks = [] := by decide
 
 end Neumann.Locks.CoordProps
